@@ -1,17 +1,977 @@
-//! stub: component `blackboard` (blackboard ports; to be written)
+//! C12 (port level): the blackboard ports through the public API, one call per line.
+//!
+//! `new <variant> <max_readers> <ty0> <ty1> ...`  service with keys 0..n-1 (u64 keys); the value type of key i is
+//!     `a` = u64 (8 bytes), `b` = [u64; 3] (24 bytes), `c` = [u32; 5] (20 bytes, align 4); initial value v = 0.
+//!     A value v is stored self-checking: word k = 100 v + k.  Type `d` = i64 (layout of `a`, other name) is only
+//!     ever *requested*, never stored.
+//! `cwriter w` / `dwriter w`        Writer port (label w)
+//! `creader r` / `dreader r`        Reader port (label r)
+//! `hmut w k h t`                   Writer::entry::<t>(k)  -> EntryHandleMut, label h
+//! `dhmut h`                        drop the EntryHandleMut
+//! `update h v`                     EntryHandleMut::update_with_copy
+//! `loan h l`                       EntryHandleMut::loan_uninit -> EntryValueUninit, label l (h is moved into it)
+//! `lwrite l v`                     EntryValueUninit::value_mut().write(..)
+//! `lcommit l`                      EntryValueUninit::assume_init_and_update (refused by the harness when nothing was written)
+//! `commit l v`                     EntryValueUninit::update_with_copy
+//! `discard l`                      EntryValueUninit::discard  (h is back)
+//! `dloan l`                        drop the EntryValueUninit (and the handle inside)
+//! `hget r k g t`                   Reader::entry::<t>(k) -> EntryHandle, label g
+//! `dhget g`                        drop the EntryHandle
+//! `get g`                          EntryHandle::get -> v | torn
+//! `fresh g`                        EntryHandle::is_up_to_date(last value obtained by `get g`)
+//! `dsvc`                           drop the PortFactory (ports and handles live on)
+//! `count`                          dynamic config: number of registered writers / readers
+//!
+//! Independent oracles (not the model): at most one live Writer, at most one live write handle (or loan) per key,
+//! at most one registered writer, a value read is self-consistent, was written to that key and is not older than
+//! one the same read handle has seen before; every live read handle is re-read after every call.
 use crate::common::*;
+use iceoryx2::port::reader::{BlackboardValue, EntryHandle, Reader};
+use iceoryx2::port::writer::{EntryHandleMut, EntryValueUninit, Writer};
+use iceoryx2::prelude::*;
+use iceoryx2::service::port_factory::blackboard::PortFactory as BbFactory;
+use std::collections::{BTreeSet, HashMap};
 
-pub struct BlackboardComp;
+static SERVICE_COUNTER: std::sync::atomic::AtomicUsize = std::sync::atomic::AtomicUsize::new(0);
+
+type TA = u64;
+type TB = [u64; 3];
+type TC = [u32; 5];
+type TD = i64;
+
+trait Pat: Copy {
+    fn enc(v: u64) -> Self;
+    fn dec(&self) -> Option<u64>;
+}
+impl Pat for TA {
+    fn enc(v: u64) -> Self {
+        100 * v
+    }
+    fn dec(&self) -> Option<u64> {
+        if self % 100 == 0 { Some(self / 100) } else { None }
+    }
+}
+impl Pat for TB {
+    fn enc(v: u64) -> Self {
+        [100 * v, 100 * v + 1, 100 * v + 2]
+    }
+    fn dec(&self) -> Option<u64> {
+        let v = self[0] / 100;
+        if *self == Self::enc(v) { Some(v) } else { None }
+    }
+}
+impl Pat for TC {
+    fn enc(v: u64) -> Self {
+        let b = 100 * v as u32;
+        [b, b + 1, b + 2, b + 3, b + 4]
+    }
+    fn dec(&self) -> Option<u64> {
+        let v = (self[0] / 100) as u64;
+        if *self == Self::enc(v) { Some(v) } else { None }
+    }
+}
+
+enum HM<S: Service> {
+    A(EntryHandleMut<S, u64, TA>),
+    B(EntryHandleMut<S, u64, TB>),
+    C(EntryHandleMut<S, u64, TC>),
+}
+enum LN<S: Service> {
+    A(EntryValueUninit<S, u64, TA>),
+    B(EntryValueUninit<S, u64, TB>),
+    C(EntryValueUninit<S, u64, TC>),
+}
+enum RH<S: Service> {
+    A(EntryHandle<S, u64, TA>, Option<BlackboardValue<TA>>),
+    B(EntryHandle<S, u64, TB>, Option<BlackboardValue<TB>>),
+    C(EntryHandle<S, u64, TC>, Option<BlackboardValue<TC>>),
+}
+impl<S: Service> HM<S> {
+    fn update(&self, v: u64) {
+        match self {
+            HM::A(h) => h.update_with_copy(TA::enc(v)),
+            HM::B(h) => h.update_with_copy(TB::enc(v)),
+            HM::C(h) => h.update_with_copy(TC::enc(v)),
+        }
+    }
+    fn loan(self) -> LN<S> {
+        match self {
+            HM::A(h) => LN::A(h.loan_uninit()),
+            HM::B(h) => LN::B(h.loan_uninit()),
+            HM::C(h) => LN::C(h.loan_uninit()),
+        }
+    }
+}
+impl<S: Service> LN<S> {
+    fn write(&mut self, v: u64) {
+        match self {
+            LN::A(l) => {
+                l.value_mut().write(TA::enc(v));
+            }
+            LN::B(l) => {
+                l.value_mut().write(TB::enc(v));
+            }
+            LN::C(l) => {
+                l.value_mut().write(TC::enc(v));
+            }
+        }
+    }
+    fn assume_init(self) -> HM<S> {
+        unsafe {
+            match self {
+                LN::A(l) => HM::A(l.assume_init_and_update()),
+                LN::B(l) => HM::B(l.assume_init_and_update()),
+                LN::C(l) => HM::C(l.assume_init_and_update()),
+            }
+        }
+    }
+    fn update_with_copy(self, v: u64) -> HM<S> {
+        match self {
+            LN::A(l) => HM::A(l.update_with_copy(TA::enc(v))),
+            LN::B(l) => HM::B(l.update_with_copy(TB::enc(v))),
+            LN::C(l) => HM::C(l.update_with_copy(TC::enc(v))),
+        }
+    }
+    fn discard(self) -> HM<S> {
+        match self {
+            LN::A(l) => HM::A(l.discard()),
+            LN::B(l) => HM::B(l.discard()),
+            LN::C(l) => HM::C(l.discard()),
+        }
+    }
+}
+impl<S: Service> RH<S> {
+    /// reads the value; `keep`: remember the BlackboardValue for `fresh`
+    fn get(&mut self, keep: bool) -> Option<u64> {
+        macro_rules! g {
+            ($h:expr, $last:expr) => {{
+                let bv = $h.get();
+                let r = (*bv).dec();
+                if keep {
+                    *$last = Some(bv);
+                }
+                r
+            }};
+        }
+        match self {
+            RH::A(h, last) => g!(h, last),
+            RH::B(h, last) => g!(h, last),
+            RH::C(h, last) => g!(h, last),
+        }
+    }
+    fn fresh(&self) -> Option<bool> {
+        match self {
+            RH::A(h, last) => last.as_ref().map(|v| h.is_up_to_date(v)),
+            RH::B(h, last) => last.as_ref().map(|v| h.is_up_to_date(v)),
+            RH::C(h, last) => last.as_ref().map(|v| h.is_up_to_date(v)),
+        }
+    }
+}
+
+struct ReadHandle<S: Service> {
+    key: usize,
+    h: RH<S>,
+    last_seen: u64,
+}
+
+struct World<S: Service> {
+    // declaration order = drop order: handles first, then ports, then the service, then the node
+    loans: HashMap<usize, (usize, Option<u64>, LN<S>)>,
+    hmuts: HashMap<usize, (usize, Option<HM<S>>)>,
+    rhandles: HashMap<usize, ReadHandle<S>>,
+    writers: HashMap<usize, Writer<S, u64>>,
+    readers: HashMap<usize, Reader<S, u64>>,
+    service: Option<BbFactory<S, u64>>,
+    _node: Node<S>,
+    nkeys: usize,
+    used: [BTreeSet<usize>; 5], // labels ever used: w r h l g
+    written: Vec<BTreeSet<u64>>,
+    _cleanup: Cleanup, // last: runs after the node is gone
+}
+
+/// the domain-wide management segment of the prefix persists by design; it is ours alone, remove it with the case
+struct Cleanup {
+    prefix: String,
+    ipc: bool,
+}
+impl Drop for Cleanup {
+    fn drop(&mut self) {
+        if !self.ipc {
+            return; // the local variant creates nothing outside the process
+        }
+        if let Ok(rd) = std::fs::read_dir("/dev/shm") {
+            for e in rd.flatten() {
+                let n = e.file_name().to_string_lossy().to_string();
+                if n.starts_with(&self.prefix) && n.ends_with("global_mgmt") {
+                    let _ = std::fs::remove_file(e.path());
+                }
+            }
+        }
+    }
+}
+
+pub enum AnyWorld {
+    None,
+    Local(Box<World<local::Service>>),
+    Ipc(Box<World<ipc::Service>>),
+}
+pub struct BlackboardComp {
+    w: AnyWorld,
+}
 impl BlackboardComp {
     pub fn new() -> Self {
-        BlackboardComp
+        BlackboardComp { w: AnyWorld::None }
     }
 }
+fn n(s: &str) -> usize {
+    s.parse().unwrap()
+}
+
+fn mk<S: Service>(t: &[&str]) -> Result<World<S>, String> {
+    let k = SERVICE_COUNTER.fetch_add(1, std::sync::atomic::Ordering::Relaxed);
+    let mut config = iceoryx2::config::Config::global_config().clone();
+    // own domain: nothing is shared with other iceoryx2 users of this machine
+    let prefix = format!("vb{}c{}_", std::process::id(), k);
+    config.global.prefix = iceoryx2_bb_system_types::file_name::FileName::new(prefix.as_bytes()).unwrap();
+    let node = NodeBuilder::new().config(&config).create::<S>().map_err(|e| format!("err:node:{e:?}"))?;
+    let name = ServiceName::new(&format!("verif/blackboard/{}/{k}", std::process::id())).unwrap();
+    let mut b = node.service_builder(&name).blackboard_creator::<u64>().max_readers(n(t[2]));
+    for (i, ty) in t[3..].iter().enumerate() {
+        b = match *ty {
+            "a" => b.add::<TA>(i as u64, TA::enc(0)),
+            "b" => b.add::<TB>(i as u64, TB::enc(0)),
+            "c" => b.add::<TC>(i as u64, TC::enc(0)),
+            _ => panic!("bad type"),
+        };
+    }
+    let service = b.create().map_err(|e| format!("err:service:{e:?}"))?;
+    let nkeys = t.len() - 3;
+    Ok(World {
+        loans: HashMap::new(),
+        hmuts: HashMap::new(),
+        rhandles: HashMap::new(),
+        writers: HashMap::new(),
+        readers: HashMap::new(),
+        service: Some(service),
+        _node: node,
+        nkeys,
+        used: Default::default(),
+        written: (0..nkeys).map(|_| [0u64].into_iter().collect()).collect(),
+        _cleanup: Cleanup { prefix, ipc: t[1] == "ipc" },
+    })
+}
+
+const W: usize = 0;
+const R: usize = 1;
+const H: usize = 2;
+const L: usize = 3;
+const G: usize = 4;
+
+fn exec<S: Service>(w: &mut World<S>, t: &[&str]) -> String {
+    let r: String = match t[0] {
+        "cwriter" => {
+            if w.used[W].contains(&n(t[1])) {
+                "dup".into()
+            } else if w.service.is_none() {
+                "no-service".into()
+            } else {
+                match w.service.as_ref().unwrap().writer_builder().create() {
+                    Ok(p) => {
+                        w.used[W].insert(n(t[1]));
+                        w.writers.insert(n(t[1]), p);
+                        "ok".into()
+                    }
+                    Err(e) => format!("err:{e:?}"),
+                }
+            }
+        }
+        "dwriter" => match w.writers.remove(&n(t[1])) {
+            Some(p) => {
+                drop(p);
+                "ok".into()
+            }
+            None => "none".into(),
+        },
+        "creader" => {
+            if w.used[R].contains(&n(t[1])) {
+                "dup".into()
+            } else if w.service.is_none() {
+                "no-service".into()
+            } else {
+                match w.service.as_ref().unwrap().reader_builder().create() {
+                    Ok(p) => {
+                        w.used[R].insert(n(t[1]));
+                        w.readers.insert(n(t[1]), p);
+                        "ok".into()
+                    }
+                    Err(e) => format!("err:{e:?}"),
+                }
+            }
+        }
+        "dreader" => match w.readers.remove(&n(t[1])) {
+            Some(p) => {
+                drop(p);
+                "ok".into()
+            }
+            None => "none".into(),
+        },
+        "hmut" => {
+            // hmut <w> <k> <h> <t>
+            let (wl, k, h) = (n(t[1]), n(t[2]), n(t[3]));
+            if w.used[H].contains(&h) {
+                "dup".into()
+            } else {
+                match w.writers.get(&wl) {
+                    None => "none".into(),
+                    Some(p) => {
+                        let key = k as u64;
+                        let res: Result<Option<HM<S>>, String> = match t[4] {
+                            "a" => p.entry::<TA>(&key).map(|x| Some(HM::A(x))).map_err(|e| format!("{e:?}")),
+                            "b" => p.entry::<TB>(&key).map(|x| Some(HM::B(x))).map_err(|e| format!("{e:?}")),
+                            "c" => p.entry::<TC>(&key).map(|x| Some(HM::C(x))).map_err(|e| format!("{e:?}")),
+                            _ => p.entry::<TD>(&key).map(|_| None).map_err(|e| format!("{e:?}")),
+                        };
+                        match res {
+                            Ok(Some(hm)) => {
+                                w.used[H].insert(h);
+                                w.hmuts.insert(h, (k, Some(hm)));
+                                "ok".into()
+                            }
+                            Ok(None) => {
+                                oracle_fail("handle of a type that no key has".into());
+                                "ok-foreign-type".into()
+                            }
+                            Err(e) => format!("err:{e}"),
+                        }
+                    }
+                }
+            }
+        }
+        "dhmut" => match w.hmuts.get(&n(t[1])) {
+            None => "none".into(),
+            Some((_, None)) => "moved".into(),
+            Some(_) => {
+                let (_, hm) = w.hmuts.remove(&n(t[1])).unwrap();
+                drop(hm);
+                "ok".into()
+            }
+        },
+        "update" => match w.hmuts.get(&n(t[1])) {
+            None => "none".into(),
+            Some((_, None)) => "moved".into(),
+            Some((k, Some(hm))) => {
+                hm.update(n(t[2]) as u64);
+                w.written[*k].insert(n(t[2]) as u64);
+                "ok".into()
+            }
+        },
+        "loan" => {
+            // loan <h> <l>
+            let (h, l) = (n(t[1]), n(t[2]));
+            if w.used[L].contains(&l) {
+                "dup".into()
+            } else {
+                match w.hmuts.get_mut(&h) {
+                    None => "none".into(),
+                    Some((_, None)) => "moved".into(),
+                    Some((_, hm)) => {
+                        let ln = hm.take().unwrap().loan();
+                        w.used[L].insert(l);
+                        w.loans.insert(l, (h, None, ln));
+                        "ok".into()
+                    }
+                }
+            }
+        }
+        "lwrite" => match w.loans.get_mut(&n(t[1])) {
+            None => "none".into(),
+            Some((_, written, ln)) => {
+                ln.write(n(t[2]) as u64);
+                *written = Some(n(t[2]) as u64);
+                "ok".into()
+            }
+        },
+        "lcommit" | "commit" | "discard" | "dloan" => match w.loans.get(&n(t[1])) {
+            None => "none".into(),
+            Some((_, None, _)) if t[0] == "lcommit" => "unwritten".into(),
+            Some(_) => {
+                let (h, last_written, ln) = w.loans.remove(&n(t[1])).unwrap();
+                let k = w.hmuts.get(&h).unwrap().0;
+                let back = match t[0] {
+                    "lcommit" => {
+                        // the value that becomes visible is the one written last into the cell
+                        w.written[k].insert(last_written.unwrap());
+                        Some(ln.assume_init())
+                    }
+                    "commit" => {
+                        w.written[k].insert(n(t[2]) as u64);
+                        Some(ln.update_with_copy(n(t[2]) as u64))
+                    }
+                    "discard" => Some(ln.discard()),
+                    _ => {
+                        drop(ln);
+                        None
+                    }
+                };
+                match back {
+                    Some(hm) => w.hmuts.get_mut(&h).unwrap().1 = Some(hm),
+                    None => {
+                        w.hmuts.remove(&h);
+                    }
+                }
+                "ok".into()
+            }
+        },
+        "hget" => {
+            // hget <r> <k> <g> <t>
+            let (rl, k, g) = (n(t[1]), n(t[2]), n(t[3]));
+            if w.used[G].contains(&g) {
+                "dup".into()
+            } else {
+                match w.readers.get(&rl) {
+                    None => "none".into(),
+                    Some(p) => {
+                        let key = k as u64;
+                        let res: Result<Option<RH<S>>, String> = match t[4] {
+                            "a" => p.entry::<TA>(&key).map(|x| Some(RH::A(x, None))).map_err(|e| format!("{e:?}")),
+                            "b" => p.entry::<TB>(&key).map(|x| Some(RH::B(x, None))).map_err(|e| format!("{e:?}")),
+                            "c" => p.entry::<TC>(&key).map(|x| Some(RH::C(x, None))).map_err(|e| format!("{e:?}")),
+                            _ => p.entry::<TD>(&key).map(|_| None).map_err(|e| format!("{e:?}")),
+                        };
+                        match res {
+                            Ok(Some(h)) => {
+                                w.used[G].insert(g);
+                                w.rhandles.insert(g, ReadHandle { key: k, h, last_seen: 0 });
+                                "ok".into()
+                            }
+                            Ok(None) => {
+                                oracle_fail("handle of a type that no key has".into());
+                                "ok-foreign-type".into()
+                            }
+                            Err(e) => format!("err:{e}"),
+                        }
+                    }
+                }
+            }
+        }
+        "dhget" => match w.rhandles.remove(&n(t[1])) {
+            Some(h) => {
+                drop(h);
+                "ok".into()
+            }
+            None => "none".into(),
+        },
+        "get" => match w.rhandles.get_mut(&n(t[1])) {
+            None => "none".into(),
+            Some(rh) => match rh.h.get(true) {
+                Some(v) => format!("{v}"),
+                None => "torn".into(),
+            },
+        },
+        "fresh" => match w.rhandles.get(&n(t[1])) {
+            None => "none".into(),
+            Some(rh) => match rh.h.fresh() {
+                Some(b) => format!("{b}"),
+                None => "noval".into(),
+            },
+        },
+        "dsvc" => match w.service.take() {
+            Some(s) => {
+                drop(s);
+                "ok".into()
+            }
+            None => "none".into(),
+        },
+        "count" => match w.service.as_ref() {
+            Some(s) => format!("w={},r={}", s.dynamic_config().number_of_writers(), s.dynamic_config().number_of_readers()),
+            None => "no-service".into(),
+        },
+        _ => panic!("bad op"),
+    };
+    // ---- independent oracles
+    if w.writers.len() > 1 {
+        oracle_fail("two live writers".into());
+    }
+    let mut per_key = vec![0usize; w.nkeys];
+    for (k, _) in w.hmuts.values() {
+        per_key[*k] += 1;
+    }
+    if per_key.iter().any(|c| *c > 1) {
+        oracle_fail("two live write handles for one key".into());
+    }
+    if let Some(s) = w.service.as_ref() {
+        if s.dynamic_config().number_of_writers() > 1 {
+            oracle_fail("two registered writers".into());
+        }
+        if s.dynamic_config().number_of_writers() < w.writers.len() {
+            oracle_fail("live writer is not registered".into());
+        }
+        if s.dynamic_config().number_of_readers() != w.readers.len() {
+            oracle_fail("registered readers differ from live readers".into());
+        }
+    }
+    // every live read handle is re-read: self-consistent, written before, never older than seen before
+    for rh in w.rhandles.values_mut() {
+        match rh.h.get(false) {
+            None => oracle_fail("torn value".into()),
+            Some(v) => {
+                if !w.written[rh.key].contains(&v) {
+                    oracle_fail("value read was never written".into());
+                }
+                if v < rh.last_seen {
+                    oracle_fail("read handle went back to an older value".into());
+                }
+                rh.last_seen = v;
+            }
+        }
+    }
+    r
+}
+
 impl Comp for BlackboardComp {
-    fn exec(&mut self, _t: &[&str]) -> String {
-        "unimplemented".into()
+    fn exec(&mut self, t: &[&str]) -> String {
+        if t[0] == "new" {
+            self.w = AnyWorld::None;
+            return match t[1] {
+                "local" => match mk::<local::Service>(t) {
+                    Ok(w) => {
+                        self.w = AnyWorld::Local(Box::new(w));
+                        "ok".into()
+                    }
+                    Err(e) => e,
+                },
+                _ => match mk::<ipc::Service>(t) {
+                    Ok(w) => {
+                        self.w = AnyWorld::Ipc(Box::new(w));
+                        "ok".into()
+                    }
+                    Err(e) => e,
+                },
+            };
+        }
+        match &mut self.w {
+            AnyWorld::None => "no-world".into(),
+            AnyWorld::Local(w) => exec(w, t),
+            AnyWorld::Ipc(w) => exec(w, t),
+        }
     }
 }
-pub fn generate(_a: &Args) -> Vec<Vec<String>> {
-    vec![]
+
+// ---------------------------------------------------------------------------------------------
+// generators
+
+const TYS: [&str; 3] = ["a", "b", "c"];
+
+pub fn generate(a: &Args) -> Vec<Vec<String>> {
+    let variant = a.rest.iter().find(|x| *x == "ipc").map(|_| "ipc").unwrap_or("local");
+    if a.exhaustive > 0 {
+        return exhaustive(a, variant);
+    }
+    let mut rng = Rng::new(a.seed);
+    let mut cases = vec![];
+    for _ in 0..a.cases {
+        let maxr = rng.range(0, 3);
+        let nkeys = rng.range(1, 4) as usize;
+        let tys: Vec<&str> = (0..nkeys).map(|_| *rng.pick(&TYS)).collect();
+        let mut lines = vec![format!("new {variant} {maxr} {}", tys.join(" "))];
+        // the generator's guess of what exists (only used to keep histories mostly valid; nothing is checked against it)
+        let mut svc = true;
+        let mut writers: Vec<usize> = vec![];
+        let mut readers: Vec<usize> = vec![];
+        let mut hmuts: Vec<(usize, usize)> = vec![]; // (h, key), not loaned
+        let mut loans: Vec<(usize, usize, usize, bool)> = vec![]; // (l, h, key, written)
+        let mut rhs: Vec<usize> = vec![];
+        let mut cnt = [0usize; 5];
+        let mut v = 0u64;
+        let wrong_ty = |rng: &mut Rng, ty: &str| -> String {
+            let others: Vec<&str> = ["a", "b", "c", "d"].into_iter().filter(|x| *x != ty).collect();
+            rng.pick(&others).to_string()
+        };
+        // weights: cwriter dwriter creader dreader hmut dhmut update loan lwrite finish-loan hget dhget get fresh dsvc count
+        let wts: [u64; 16] = [6, 3, 6, 3, 14, 5, 16, 9, 5, 9, 9, 3, 18, 5, 1, 3];
+        let total: u64 = wts.iter().sum();
+        let mut budget = rng.range(3, a.len);
+        let mut guard = 0;
+        while budget > 0 && guard < 10 * a.len {
+            guard += 1;
+            let mut c = rng.below(total);
+            let mut k = 0;
+            while c >= wts[k] {
+                c -= wts[k];
+                k += 1;
+            }
+            let invalid = rng.chance(7); // deliberately invalid call of this kind
+            let some_label = |rng: &mut Rng, top: usize| -> usize { rng.below(top as u64 + 2) as usize };
+            let l: String = match k {
+                0 => {
+                    let free = svc && writers.is_empty() && hmuts.is_empty() && loans.is_empty();
+                    if !free && !invalid && !rng.chance(10) {
+                        continue;
+                    }
+                    if invalid && cnt[W] > 0 && rng.chance(30) {
+                        format!("cwriter {}", rng.below(cnt[W] as u64))
+                    } else {
+                        let w = cnt[W];
+                        if free {
+                            cnt[W] += 1;
+                            writers.push(w);
+                        }
+                        format!("cwriter {w}")
+                    }
+                }
+                1 => {
+                    if invalid || writers.is_empty() {
+                        if !invalid {
+                            continue;
+                        }
+                        format!("dwriter {}", some_label(&mut rng, cnt[W]))
+                    } else {
+                        // mostly keep the writer while nothing else could be done without it
+                        let w = *rng.pick(&writers);
+                        writers.retain(|x| *x != w);
+                        format!("dwriter {w}")
+                    }
+                }
+                2 => {
+                    let free = svc && readers.len() < (maxr.max(1) as usize);
+                    if !free && !invalid && !rng.chance(15) {
+                        continue;
+                    }
+                    if invalid && cnt[R] > 0 && rng.chance(30) {
+                        format!("creader {}", rng.below(cnt[R] as u64))
+                    } else {
+                        let r = cnt[R];
+                        if free {
+                            cnt[R] += 1;
+                            readers.push(r);
+                        }
+                        format!("creader {r}")
+                    }
+                }
+                3 => {
+                    if invalid || readers.is_empty() {
+                        if !invalid {
+                            continue;
+                        }
+                        format!("dreader {}", some_label(&mut rng, cnt[R]))
+                    } else {
+                        let r = *rng.pick(&readers);
+                        readers.retain(|x| *x != r);
+                        format!("dreader {r}")
+                    }
+                }
+                4 => {
+                    if writers.is_empty() && !invalid {
+                        continue;
+                    }
+                    let w = if writers.is_empty() || (invalid && rng.chance(25)) { some_label(&mut rng, cnt[W]) } else { *rng.pick(&writers) };
+                    let mut key = rng.below(nkeys as u64) as usize;
+                    let busy = |key: usize, hmuts: &Vec<(usize, usize)>, loans: &Vec<(usize, usize, usize, bool)>| hmuts.iter().any(|x| x.1 == key) || loans.iter().any(|x| x.2 == key);
+                    if busy(key, &hmuts, &loans) && !rng.chance(20) {
+                        // prefer a key without handle
+                        if let Some(k2) = (0..nkeys).find(|k2| !busy(*k2, &hmuts, &loans)) {
+                            key = k2;
+                        }
+                    }
+                    let mut ty = tys[key].to_string();
+                    let mut good = writers.contains(&w) && !busy(key, &hmuts, &loans);
+                    if invalid {
+                        match rng.below(3) {
+                            0 => {
+                                key = nkeys + rng.below(2) as usize;
+                                ty = rng.pick(&["a", "b", "c", "d"]).to_string();
+                                good = false;
+                            }
+                            1 => {
+                                ty = wrong_ty(&mut rng, tys[key]);
+                                good = false;
+                            }
+                            _ => {}
+                        }
+                    }
+                    if invalid && cnt[H] > 0 && rng.chance(20) {
+                        format!("hmut {w} {key} {} {ty}", rng.below(cnt[H] as u64))
+                    } else {
+                        let h = cnt[H];
+                        if good {
+                            cnt[H] += 1;
+                            hmuts.push((h, key));
+                        }
+                        format!("hmut {w} {key} {h} {ty}")
+                    }
+                }
+                5 => {
+                    if invalid || hmuts.is_empty() {
+                        if !invalid {
+                            continue;
+                        }
+                        format!("dhmut {}", some_label(&mut rng, cnt[H]))
+                    } else {
+                        let h = rng.pick(&hmuts).0;
+                        hmuts.retain(|x| x.0 != h);
+                        format!("dhmut {h}")
+                    }
+                }
+                6 => {
+                    if invalid || hmuts.is_empty() {
+                        if !invalid {
+                            continue;
+                        }
+                        v += 1;
+                        format!("update {} {v}", some_label(&mut rng, cnt[H]))
+                    } else {
+                        v += 1;
+                        format!("update {} {v}", rng.pick(&hmuts).0)
+                    }
+                }
+                7 => {
+                    if invalid || hmuts.is_empty() {
+                        if !invalid {
+                            continue;
+                        }
+                        format!("loan {} {}", some_label(&mut rng, cnt[H]), some_label(&mut rng, cnt[L]))
+                    } else {
+                        let (h, key) = *rng.pick(&hmuts);
+                        let l = cnt[L];
+                        cnt[L] += 1;
+                        hmuts.retain(|x| x.0 != h);
+                        loans.push((l, h, key, false));
+                        format!("loan {h} {l}")
+                    }
+                }
+                8 => {
+                    if invalid || loans.is_empty() {
+                        if !invalid {
+                            continue;
+                        }
+                        v += 1;
+                        format!("lwrite {} {v}", some_label(&mut rng, cnt[L]))
+                    } else {
+                        let i = rng.below(loans.len() as u64) as usize;
+                        loans[i].3 = true;
+                        v += 1;
+                        format!("lwrite {} {v}", loans[i].0)
+                    }
+                }
+                9 => {
+                    if invalid || loans.is_empty() {
+                        if !invalid {
+                            continue;
+                        }
+                        let l = some_label(&mut rng, cnt[L]);
+                        v += 1;
+                        match rng.below(4) {
+                            0 => format!("commit {l} {v}"),
+                            1 => format!("lcommit {l}"),
+                            2 => format!("discard {l}"),
+                            _ => format!("dloan {l}"),
+                        }
+                    } else {
+                        let i = rng.below(loans.len() as u64) as usize;
+                        let (l, h, key, mut written) = loans[i];
+                        let how = rng.below(100);
+                        let op = if how < 40 {
+                            v += 1;
+                            format!("commit {l} {v}")
+                        } else if how < 65 {
+                            if !written && rng.chance(85) {
+                                v += 1;
+                                lines.push(format!("lwrite {l} {v}"));
+                                written = true;
+                            }
+                            format!("lcommit {l}")
+                        } else if how < 88 {
+                            format!("discard {l}")
+                        } else {
+                            format!("dloan {l}")
+                        };
+                        // an `lcommit` of a loan nothing was written to is refused: the loan stays
+                        let stays = op.starts_with("lcommit") && !written;
+                        if !stays {
+                            loans.remove(i);
+                            if !op.starts_with("dloan") {
+                                hmuts.push((h, key));
+                            }
+                        }
+                        op
+                    }
+                }
+                10 => {
+                    if readers.is_empty() && !invalid {
+                        continue;
+                    }
+                    let r = if readers.is_empty() || (invalid && rng.chance(25)) { some_label(&mut rng, cnt[R]) } else { *rng.pick(&readers) };
+                    let mut key = rng.below(nkeys as u64) as usize;
+                    let mut ty = tys[key].to_string();
+                    let mut good = readers.contains(&r);
+                    if invalid {
+                        match rng.below(3) {
+                            0 => {
+                                key = nkeys + rng.below(2) as usize;
+                                ty = rng.pick(&["a", "b", "c", "d"]).to_string();
+                                good = false;
+                            }
+                            1 => {
+                                ty = wrong_ty(&mut rng, tys[key]);
+                                good = false;
+                            }
+                            _ => {}
+                        }
+                    }
+                    if invalid && cnt[G] > 0 && rng.chance(20) {
+                        format!("hget {r} {key} {} {ty}", rng.below(cnt[G] as u64))
+                    } else {
+                        let g = cnt[G];
+                        if good {
+                            cnt[G] += 1;
+                            rhs.push(g);
+                        }
+                        format!("hget {r} {key} {g} {ty}")
+                    }
+                }
+                11 => {
+                    if invalid || rhs.is_empty() {
+                        if !invalid {
+                            continue;
+                        }
+                        format!("dhget {}", some_label(&mut rng, cnt[G]))
+                    } else {
+                        let g = *rng.pick(&rhs);
+                        rhs.retain(|x| *x != g);
+                        format!("dhget {g}")
+                    }
+                }
+                12 | 13 => {
+                    let g = if invalid || rhs.is_empty() {
+                        if !invalid {
+                            continue;
+                        }
+                        some_label(&mut rng, cnt[G])
+                    } else {
+                        *rng.pick(&rhs)
+                    };
+                    if k == 12 { format!("get {g}") } else { format!("fresh {g}") }
+                }
+                14 => {
+                    if !rng.chance(40) {
+                        continue;
+                    }
+                    svc = false;
+                    "dsvc".to_string()
+                }
+                _ => "count".to_string(),
+            };
+            lines.push(l);
+            budget -= 1;
+        }
+        cases.push(lines);
+    }
+    cases
+}
+
+/// every sequence of length `exhaustive` over a fixed alphabet (labels are assigned by counters so that the same
+/// letter always means "the next new object" / "the oldest object not yet dropped")
+fn exhaustive(a: &Args, variant: &str) -> Vec<Vec<String>> {
+    let mut cases = vec![];
+    let configs = ["1 a b", "2 b c"];
+    let alphabet: Vec<String> = [
+        "cwriter", "dwriter", "hmut 0", "hmut 1", "hmut 0 wrong", "dhmut", "update", "loan", "commit", "lwrite", "lcommit", "discard", "dloan", "creader", "dreader", "hget 0",
+        "dhget", "get", "fresh", "dsvc",
+    ]
+    .iter()
+    .map(|x| x.to_string())
+    .collect();
+    for cfg in configs {
+        let tys: Vec<&str> = cfg.split(' ').skip(1).collect();
+        enumerate_seqs(&alphabet, a.exhaustive as usize, &mut |seq| {
+            // prefix: a writer with a handle on key 0, a reader with a read handle on key 0, one update, one read
+            let mut lines = vec![
+                format!("new {variant} {cfg}"),
+                "cwriter 0".to_string(),
+                "creader 0".to_string(),
+                format!("hmut 0 0 0 {}", tys[0]),
+                format!("hget 0 0 0 {}", tys[0]),
+                "update 0 1".to_string(),
+                "get 0".to_string(),
+            ];
+            // counters: next new label / oldest label not yet dropped, per class
+            let (mut nw, mut nr, mut nh, mut nl, mut ng) = (1usize, 1usize, 1usize, 0usize, 1usize);
+            let (mut dw, mut dr, mut dh, mut dg) = (0usize, 0usize, 0usize, 0usize);
+            let mut v = 1u64;
+            for &i in seq {
+                let cur_w = nw - 1; // the newest writer label
+                let cur_h = nh - 1;
+                let cur_l = nl.saturating_sub(1);
+                let cur_g = ng - 1;
+                match alphabet[i].as_str() {
+                    "cwriter" => {
+                        lines.push(format!("cwriter {nw}"));
+                        nw += 1;
+                    }
+                    "dwriter" => {
+                        lines.push(format!("dwriter {dw}"));
+                        dw += 1;
+                    }
+                    "hmut 0" => {
+                        lines.push(format!("hmut {cur_w} 0 {nh} {}", tys[0]));
+                        nh += 1;
+                    }
+                    "hmut 1" => {
+                        lines.push(format!("hmut {cur_w} 1 {nh} {}", tys[1]));
+                        nh += 1;
+                    }
+                    "hmut 0 wrong" => {
+                        lines.push(format!("hmut {cur_w} 0 {nh} {}", tys[1]));
+                        nh += 1;
+                    }
+                    "dhmut" => {
+                        lines.push(format!("dhmut {dh}"));
+                        dh += 1;
+                    }
+                    "update" => {
+                        v += 1;
+                        lines.push(format!("update {cur_h} {v}"));
+                    }
+                    "loan" => {
+                        lines.push(format!("loan {cur_h} {nl}"));
+                        nl += 1;
+                    }
+                    "commit" => {
+                        v += 1;
+                        lines.push(format!("commit {cur_l} {v}"));
+                    }
+                    "lwrite" => {
+                        v += 1;
+                        lines.push(format!("lwrite {cur_l} {v}"));
+                    }
+                    "lcommit" => lines.push(format!("lcommit {cur_l}")),
+                    "discard" => lines.push(format!("discard {cur_l}")),
+                    "dloan" => lines.push(format!("dloan {cur_l}")),
+                    "creader" => {
+                        lines.push(format!("creader {nr}"));
+                        nr += 1;
+                    }
+                    "dreader" => {
+                        lines.push(format!("dreader {dr}"));
+                        dr += 1;
+                    }
+                    "hget 0" => {
+                        lines.push(format!("hget {} 0 {ng} {}", nr - 1, tys[0]));
+                        ng += 1;
+                    }
+                    "dhget" => {
+                        lines.push(format!("dhget {dg}"));
+                        dg += 1;
+                    }
+                    "get" => lines.push(format!("get {cur_g}")),
+                    "fresh" => lines.push(format!("fresh {cur_g}")),
+                    x => lines.push(x.to_string()),
+                }
+            }
+            lines.push("count".to_string());
+            lines.push("get 0".to_string());
+            cases.push(lines);
+        });
+    }
+    cases
 }
